@@ -31,6 +31,7 @@ type Evaluator struct {
 	endRules       []*Rule
 	endFileRules   []*Rule
 	fuzzing        bool
+	nesting        int
 }
 
 var (
@@ -43,6 +44,13 @@ var (
 
 var fuzzingLoopLimit = 10000
 var callDepthLimit = 4096
+
+// the evaluator recurses once per nested statement and expression, and
+// every level costs a few KB of Go stack. the call depth limit alone does
+// not bound that: 4096 calls of a function whose body nests a hundred
+// operators around the recursive call need more than the 1GB a goroutine
+// stack may grow to, which kills the process
+var nestingLimit = 65536
 
 func NewEvaluator(prog Program, lexer *Lexer, stdout io.Writer) Evaluator {
 	e := Evaluator{
@@ -211,6 +219,16 @@ func (e *Evaluator) evalString(str string) (*Cell, error) {
 }
 
 func (e *Evaluator) evalExpr(expr Expr) (*Cell, error) {
+	if e.nesting >= nestingLimit {
+		return nil, e.error(expr.Token(), "nesting limit exceeded")
+	}
+	e.nesting++
+	cell, err := e.evalNestedExpr(expr)
+	e.nesting--
+	return cell, err
+}
+
+func (e *Evaluator) evalNestedExpr(expr Expr) (*Cell, error) {
 	verifCharge(1)
 	switch exp := expr.(type) {
 	case *ExprLiteral:
@@ -888,6 +906,14 @@ func (e *Evaluator) evalExprList(exprs []Expr, copy bool) ([]*Cell, error) {
 }
 
 func (e *Evaluator) evalStatement(stmt Statement) error {
+	// (a runaway recursion passes through evalExpr, which reports the limit)
+	e.nesting++
+	err := e.evalNestedStatement(stmt)
+	e.nesting--
+	return err
+}
+
+func (e *Evaluator) evalNestedStatement(stmt Statement) error {
 	verifCharge(1)
 	switch st := stmt.(type) {
 	case *StatementBlock:
